@@ -67,7 +67,7 @@ def rewrite_layout(rng, conf):
 
 def mutate_keyword(rng, conf):
     """a keyword-level mutation that must be rejected"""
-    kind = rng.choice(["misspell", "context", "novalue", "text", "brace", "brace2"])
+    kind = rng.choice(["misspell", "context", "novalue", "text", "brace", "brace2", "trailing", "glued", "among"])
     lines = conf.split("\n")
     idx = [i for i, l in enumerate(lines) if re.match(r"^\s+(name|width|centers|forceConstant|colvars|upperWalls|lowerBoundary)\b", l)]
     if kind == "misspell":
@@ -85,6 +85,16 @@ def mutate_keyword(rng, conf):
         cand = [j for j, l in enumerate(lines) if re.match(r"^\s+(centers|forceConstant|width|upperWalls)\s", l)]
         i = rng.choice(cand)
         lines[i] = re.sub(r"^(\s+\w+)\s+.*$", r"\1 abc", lines[i])
+    elif kind in ("trailing", "glued"):
+        # text after (or glued to) a valid number where only a number is allowed
+        cand = [j for j, l in enumerate(lines) if re.match(r"^\s+(forceConstant|width)\s+\S+\s*$", l)]
+        i = rng.choice(cand)
+        lines[i] = lines[i].rstrip() + (" abc" if kind == "trailing" else "abc")
+    elif kind == "among":
+        # text among the numbers of a list: what follows must not be dropped silently
+        cand = [j for j, l in enumerate(lines) if re.match(r"^\s+(centers|upperWalls)\s", l)]
+        i = rng.choice(cand)
+        lines[i] = lines[i].rstrip() + " abc 1.0"
     elif kind == "brace":
         i = rng.choice([j for j, l in enumerate(lines) if l.strip() == "}"])
         del lines[i]
